@@ -56,6 +56,13 @@ class Scenario:
         self.pool = pool
         handles = []
         res['handles'] = handles
+        if cfg.get('second'):
+            # a second user thread offering a job at any moment
+            def second():
+                res['second_handle'] = pool.apply_async(tasks.ok, (77,))
+                res['second_state'] = pool._state
+                return 'second-done'
+            self.sched.spawn(second, 'user2', pid=MAIN_PID)
         for step in cfg['script']:
             op, _, arg = step.partition(':')
             self.ev('user', step)
@@ -268,6 +275,13 @@ def c07_oracle(sc):
                         'join()%s' % (idx, ' (workers recycled after close() '
                                       'are not replaced)' if quota else ''),
                         f18)
+            lim = sc.cfg.get('pool', {}).get('timeout')
+            if fn == 'sleepy' and lim and a > lim:
+                if h._success or h._value.type.__name__ != 'TimeLimitExceeded':
+                    return ('job %d overran its hard limit during the drain '
+                            'but resolved as %r' % (idx, (h._success,
+                                                         h._value)))
+                continue
             exp = expected(fn, a)
             if exp[0] != h._success or (exp[0] and exp[1] != h._value):
                 return 'job %d resolved as %r, expected %r' % (
@@ -300,6 +314,10 @@ def c07_oracle(sc):
                 'result-consumption guard' % r['join_time'])
     if 'late' in r and r['late'] is not None:
         return 'a job offered after close() was accepted'
+    h2 = r.get('second_handle')
+    if h2 is not None and not h2.ready():
+        return ('a job accepted from a second thread while close() was '
+                'running is unresolved after join()')
     return None
 
 
